@@ -105,7 +105,15 @@ VM1(ev) ==
   ELSE (IF 0 <= p /\ p < LenLoc(sys) THEN Ok(IsVal(o) /\ o[2] = Rel2Par(sys, p), "relative-to-chr")
         ELSE Ok(Rejected(o), "relative-to-chr:rejects"))
 
-Verdict(ev) == CASE ev[1] = "txpos" -> VTxPos(ev) [] ev[1] = "m1" -> VM1(ev) [] ev[1] = "tx" -> VTx(ev) [] ev[1] = "txiv" -> VTxIv(ev) [] OTHER -> "unknown-op"
+(* ["txgap", exons, introns, span] : exons that overlap or nest -- introns are still exactly the span minus the exons *)
+VTxGap(ev) ==
+  LET ex == ev[2] IN
+  IF Rejected(ev[3]) /\ Rejected(ev[4]) THEN "ok"            \* such a transcript may be refused as a whole
+  ELSE FirstBad(<<
+    Ok(IsVal(ev[3]) /\ PosSet(ev[3][2]) = IntronPos(ex), "introns"),
+    Ok(IsVal(ev[4]) /\ PosSet(ev[4][2]) = MinStart(ex)..(MaxEnd(ex) - 1), "span") >>)
+
+Verdict(ev) == CASE ev[1] = "txgap" -> VTxGap(ev) [] ev[1] = "txpos" -> VTxPos(ev) [] ev[1] = "m1" -> VM1(ev) [] ev[1] = "tx" -> VTx(ev) [] ev[1] = "txiv" -> VTxIv(ev) [] OTHER -> "unknown-op"
 Bad == {i \in DOMAIN Trace : Verdict(Trace[i]) # "ok"}
 ASSUME \A i \in Bad : PrintT(<<"BAD", i, Verdict(Trace[i])>>)
 ASSUME PrintT(<<"DONE", Len(Trace), Cardinality(Bad)>>)
